@@ -55,7 +55,9 @@ class Lex:
                         u_matched = u_matched[1:-1]
                         u_matched = u_matched.replace(r'\"', '"')
                 yield Token(token_type, u_matched, line_num, self._source)
-        yield Token(TokenTypes.EOF)
+        # With the number of the last line, for messages about what is
+        # missing at the end of the text.
+        yield Token(TokenTypes.EOF, '', max(line_num, 1), self._source)
 
     @staticmethod
     def is_int(text):
